@@ -266,3 +266,18 @@
 ; every earned-fee record holds a coin of the denomination named in its key
 (define-fun wfEarned ((r (Array Key Bytes))) Bool
   (forall ((p Bytes) (d Str)) (! (=> (not (= (select r (KEarned p d)) bnil)) (= (Coin_Denom (dec_Coin (select r (KEarned p d)))) d)) :pattern ((select r (KEarned p d))))))
+
+; ---- I_sched: every queue entry names its own context, which exists, and agrees with the per-context pointer;
+; a context with a batch in flight has no new batch pending
+(define-fun expOK ((r (Array Key Bytes)) (h Int) (id Bytes)) Bool
+  (=> (not (= (select r (KExpQ h id)) bnil))
+      (and (= (select r (KExpQ h id)) (idVal id)) (ctxFound r id) (rng_RequestContext (ctxOf r id)) (<= (slen (RequestContext_Providers (ctxOf r id))) 32767)
+           (= (select r (KExpH id)) (hVal h)) (= (select r (KNewH id)) bnil))))
+(define-fun newOK ((r (Array Key Bytes)) (h Int) (id Bytes)) Bool
+  (=> (not (= (select r (KNewQ h id)) bnil))
+      (and (= (select r (KNewQ h id)) (idVal id)) (ctxFound r id) (rng_RequestContext (ctxOf r id)) (<= (slen (RequestContext_Providers (ctxOf r id))) 32767)
+           (ordinary (RequestContext_Consumer (ctxOf r id))) (> (RequestContext_Timeout (ctxOf r id)) 0)
+           (= (select r (KNewH id)) (hVal h)))))
+(define-fun schedInv ((r (Array Key Bytes))) Bool
+  (and (forall ((h Int) (id Bytes)) (! (expOK r h id) :pattern ((select r (KExpQ h id)))))
+       (forall ((h Int) (id Bytes)) (! (newOK r h id) :pattern ((select r (KNewQ h id)))))))
